@@ -396,8 +396,10 @@ func (fr *Frame) dispatchCall2(instr ssa.Instruction, cc *ssa.CallCommon, pos to
 		fr.R.note("call of %s (no contract, not inlinable): heap havocked", fr.R.fnShort(o))
 		// module code may touch monitor-protected state it is handed: nothing is preserved
 		fr.noKeep = true
+		fr.lockKeep = !eng.mayReachHolder(o)
 		v := fr.havocCall(cc, args, true, pos)
 		fr.noKeep = false
+		fr.lockKeep = false
 		return v
 	}
 	full := o.String()
@@ -790,6 +792,13 @@ func (fr *Frame) applyContractVars(c *Contract, fn *ssa.Function, cc *ssa.CallCo
 	}
 	ctx := &EvalCtx{fr: fr, st: fr.st, vars: vars, pkgPath: c.PkgPath, contract: c}
 	for _, rq := range c.Requires {
+		if fr.R.Contract != nil && fr.R.Contract.Shell {
+			// a critical-section unit without a contract of its own proves only the monitor's obligations
+			if t, ok := ctx.tryBool(rq.E); ok {
+				fr.assume(t)
+			}
+			continue
+		}
 		goal := Implies(fr.cur, ctx.Bool(rq.E))
 		fr.R.addObl("requires@"+shortName(c.Name), rq.Label, goal, rq.Src, &rq, pos)
 	}
@@ -802,9 +811,11 @@ func (fr *Frame) applyContractVars(c *Contract, fn *ssa.Function, cc *ssa.CallCo
 	case c.ModAll:
 		if fn != nil && !c.Trusted {
 			fr.noKeep = true
+			fr.lockKeep = !fr.R.Eng.mayReachHolder(fn)
 		}
 		fr.havocAllHeap()
 		fr.noKeep = false
+		fr.lockKeep = false
 	default:
 		if c.HavocExt {
 			for _, n := range fr.R.Heap.Names() {
